@@ -10,16 +10,14 @@ def to_list(a):
 
 
 def inc_grid(E, name, L):
-    """strictly increasing positive symbolic grid r_0 < r_1 < ... (arbitrary, not equally spaced)"""
-    r = []
-    acc = None
-    for i in range(L):
-        d = E.real('%s_d%d' % (name, i), pos=True, default=0.5)
-        acc = d if acc is None else acc + d
-        r.append(acc)
+    """strictly increasing positive symbolic grid r_0 < r_1 < ... (arbitrary, not equally spaced).
+    One variable per point (ordering as an assumption) so that a model value r_i == sigma
+    survives the conversion to floats in the replay."""
     a = _np.empty(L, dtype=object if E.sym else float)
-    for i, v in enumerate(r):
-        a[i] = v
+    for i in range(L):
+        a[i] = E.real('%s_%d' % (name, i), pos=True, default=0.5 * (i + 1))
+        if i:
+            E.assume(a[i] > a[i - 1])
     return a
 
 
